@@ -79,6 +79,7 @@ func ObserveOn(app *chain.App, ctx sdk.Context, light bool) []PartObs {
 		}
 	}
 	parts = append(parts, manualPart("AuctionV2", "GetUserLimitBidDataByPremium", lp))
+	parts = append(parts, indexParts(app, ctx)...)
 	parts = append(parts, observeBank(app, ctx)...)
 	return parts
 }
